@@ -54,8 +54,15 @@ static void* counterThread(void* p)
 		int r = rng.below(10);
 		if (r < 4) { ++*j.c; j.net++; }
 		else if (r < 7) { --*j.c; j.net--; }
-		else if (r < 8) { ++*j.a; vsched::hook(113, j.a, 1); }
-		else if (r < 9) { (*j.a)--; vsched::hook(113, j.a, -1); }
+		else if (r < 8)
+		{
+			int w = rng.below(4); // every increment/decrement flavour of Atomic<T>
+			if (w == 0) { ++*j.a; vsched::hook(113, j.a, 1); }
+			else if (w == 1) { (*j.a)++; vsched::hook(113, j.a, 1); }
+			else if (w == 2) { --*j.a; vsched::hook(113, j.a, -1); }
+			else { (*j.a)--; vsched::hook(113, j.a, -1); }
+		}
+		else if (r < 9) { int k = rng.range(1, 9); *j.a -= k; vsched::hook(113, j.a, -k); }
 		else { int k = rng.range(1, 9); *j.a += k; vsched::hook(113, j.a, k); }
 	}
 	return 0;
@@ -93,21 +100,26 @@ struct BigJob
 {
 	AtomicCount* c;
 	Atomic<int>* a;
+	Atomic<int>* m; // multiplicative operators: phase 1 "*= 2", phase 2 "/= 2"
 	uint64_t seed;
 	int ops;
 	long netC, netA;
+	int doublings, phase;
 };
 static void* bigThread(void* p)
 {
 	BigJob& j = *(BigJob*)p;
 	Rng rng(j.seed);
+	if (j.phase == 1) { for (int i = 0; i < j.doublings; i++) *j.m *= 2; return 0; }
+	if (j.phase == 2) { for (int i = 0; i < j.doublings; i++) *j.m /= 2; return 0; }
 	for (int i = 0; i < j.ops; i++)
 	{
-		int r = rng.below(8);
+		int r = rng.below(10);
 		if (r < 3) { ++*j.c; j.netC++; }
 		else if (r < 5) { --*j.c; j.netC--; }
-		else if (r < 6) { ++*j.a; j.netA++; }
-		else if (r < 7) { (*j.a)--; j.netA--; }
+		else if (r < 6) { if (r & 1) ++*j.a; else (*j.a)++; j.netA++; }
+		else if (r < 7) { if (i & 1) --*j.a; else (*j.a)--; j.netA--; }
+		else if (r < 8) { int k = rng.range(1, 9); *j.a -= k; j.netA -= k; }
 		else { int k = rng.range(1, 9); *j.a += k; j.netA += k; }
 	}
 	return 0;
@@ -120,17 +132,28 @@ static bool bigCounterScenario(Rng& rng, int maxThreads, int opsPer, FILE* f)
 	Atomic<int> a(init);
 	std::vector<BigJob> jobs((size_t)nt);
 	std::vector<pthread_t> th((size_t)nt);
-	for (int i = 0; i < nt; i++) { BigJob j = { &c, &a, rng.next(), opsPer, 0, 0 }; jobs[i] = j; }
+	int minit = rng.range(1, 60), per = 24 / nt;
+	Atomic<int> m(minit);
+	for (int i = 0; i < nt; i++) { BigJob j = { &c, &a, &m, rng.next(), opsPer, 0, 0, per, 0 }; jobs[i] = j; }
 	for (int i = 0; i < nt; i++) pthread_create(&th[i], 0, bigThread, &jobs[i]);
 	for (int i = 0; i < nt; i++) pthread_join(th[i], 0);
+	for (int i = 0; i < nt; i++) jobs[i].phase = 1;
+	for (int i = 0; i < nt; i++) pthread_create(&th[i], 0, bigThread, &jobs[i]);
+	for (int i = 0; i < nt; i++) pthread_join(th[i], 0);
+	int afterMul = (int)*m;
+	for (int i = 0; i < nt; i++) jobs[i].phase = 2;
+	for (int i = 0; i < nt; i++) pthread_create(&th[i], 0, bigThread, &jobs[i]);
+	for (int i = 0; i < nt; i++) pthread_join(th[i], 0);
+	int afterDiv = (int)*m;
 	std::string nc = "[", na = "[";
 	for (int i = 0; i < nt; i++)
 	{
 		nc += (i ? "," : "") + std::to_string(jobs[i].netC);
 		na += (i ? "," : "") + std::to_string(jobs[i].netA);
 	}
-	fprintf(f, "{\"sum\":[{\"init\":%d,\"net\":%s],\"final\":%d},{\"init\":%d,\"net\":%s],\"final\":%d}],\"objs\":[]}\n",
-	        init, nc.c_str(), (int)c, init, na.c_str(), (int)*a);
+	fprintf(f, "{\"sum\":[{\"init\":%d,\"net\":%s],\"final\":%d},{\"init\":%d,\"net\":%s],\"final\":%d}],"
+	           "\"prod\":{\"init\":%d,\"doublings\":%d,\"afterMul\":%d,\"afterDiv\":%d},\"objs\":[]}\n",
+	        init, nc.c_str(), (int)c, init, na.c_str(), (int)*a, minit, per * nt, afterMul, afterDiv);
 	return true;
 }
 
